@@ -4,7 +4,9 @@ package main
 
 import (
 	"bytes"
+	"errors"
 	"fmt"
+	"io"
 	"runtime"
 	"strings"
 	"unicode/utf8"
@@ -23,6 +25,16 @@ type witness struct {
 	Parser string   `json:"parser"` // html | html-noescape | markdown
 	Tokens []string `json:"tokens"`
 	Repeat int      `json:"repeat,omitempty"`
+	// Scenario says what else happens to the builder the input is parsed into ("" = a fresh builder, nothing else):
+	//	prefix-plain   Plain("\U0001F600 ") was written before (styling.Plain + html.String in one message)
+	//	prefix-bold    Format("x ", Bold) was written before
+	//	suffix-plain   Plain(" ") is written afterwards
+	//	twice          the input is parsed twice into the same builder (two html.String options)
+	//	reuse          the builder produced another message before (Plain("\U0001F600\U0001F600 ").Format("x", Bold), Complete resets it): both results judged
+	//	after-error    a parse that added an entity and then failed happened on this builder before (Complete taken in between)
+	//	resolver-error the UserResolver option returns an error; resolver-nil: it returns (nil, nil)
+	//	reader-1byte   the io.Reader returns one byte per call and (0, nil) before each; reader-eof: data together with io.EOF
+	Scenario string `json:"scenario,omitempty"`
 }
 
 func (w witness) input() []byte {
@@ -49,15 +61,195 @@ func tok(b []byte) string {
 }
 
 func parse(parser string, in []byte, b *entity.Builder) error {
+	return parseWith(parser, bytes.NewReader(in), b, nil)
+}
+
+func parseWith(parser string, r io.Reader, b *entity.Builder, res entity.UserResolver) error {
 	switch parser {
 	case "html":
-		return html.HTML(bytes.NewReader(in), b, html.Options{})
+		return html.HTML(r, b, html.Options{UserResolver: res})
 	case "html-noescape":
-		return html.HTML(bytes.NewReader(in), b, html.Options{DisableTelegramEscape: true})
+		return html.HTML(r, b, html.Options{DisableTelegramEscape: true, UserResolver: res})
 	case "markdown":
-		return markdown.Markdown(bytes.NewReader(in), b, markdown.Options{})
+		return markdown.Markdown(r, b, markdown.Options{UserResolver: res})
 	}
 	panic("unknown parser " + parser)
+}
+
+// slowReader: legal io.Reader behaviour: (0, nil) before every read, then a single byte.
+type slowReader struct {
+	b    []byte
+	idle bool
+}
+
+func (r *slowReader) Read(p []byte) (int, error) {
+	if len(p) == 0 {
+		return 0, nil
+	}
+	if r.idle = !r.idle; r.idle {
+		return 0, nil
+	}
+	if len(r.b) == 0 {
+		return 0, io.EOF
+	}
+	p[0] = r.b[0]
+	r.b = r.b[1:]
+	return 1, nil
+}
+
+// eofReader returns the whole data together with io.EOF.
+type eofReader struct{ b []byte }
+
+func (r *eofReader) Read(p []byte) (int, error) {
+	n := copy(p, r.b)
+	r.b = r.b[n:]
+	if len(r.b) == 0 {
+		return n, io.EOF
+	}
+	return n, nil
+}
+
+var scenarios = []string{"prefix-plain", "prefix-bold", "suffix-plain", "twice", "reuse", "after-error", "resolver-error", "resolver-nil", "reader-1byte", "reader-eof"}
+
+// judgeScenario: the statement for an input parsed into a builder with a history / with other options.
+func judgeScenario(w witness) kit.Result {
+	in := w.input()
+	var b entity.Builder
+	var results []struct {
+		text string
+		es   []tg.MessageEntityClass
+	}
+	take := func() {
+		t, es := b.Complete()
+		results = append(results, struct {
+			text string
+			es   []tg.MessageEntityClass
+		}{t, es})
+	}
+	var res entity.UserResolver
+	var rd io.Reader = bytes.NewReader(in)
+	switch w.Scenario {
+	case "prefix-plain":
+		b.Plain("\U0001F600 ")
+	case "prefix-bold":
+		b.Format("x ", entity.Bold())
+	case "reuse":
+		b.Plain("\U0001F600\U0001F600 ").Format("x", entity.Bold())
+		take()
+	case "after-error":
+		bad := "\U0001F600\U0001F600 <i>y</i><b>a</x>" // fails after an entity was added
+		if w.Parser == "markdown" {
+			bad = "\U0001F600\U0001F600 *x* [a](tg://user?id=x)"
+		}
+		if err := parse(w.Parser, []byte(bad), &b); err == nil {
+			return kit.Bad("harness-error", "%q was expected to fail", bad)
+		}
+		take()
+	case "resolver-error":
+		res = func(int64) (tg.InputUserClass, error) { return nil, errors.New("no such user") }
+	case "resolver-nil":
+		res = func(int64) (tg.InputUserClass, error) { return nil, nil }
+	case "reader-1byte":
+		rd = &slowReader{b: in}
+	case "reader-eof":
+		rd = &eofReader{b: in}
+	}
+	if err := parseWith(w.Parser, rd, &b, res); err != nil {
+		return kit.OKo(w.Parser + "+" + w.Scenario + ":error")
+	}
+	switch w.Scenario {
+	case "suffix-plain":
+		b.Plain(" ")
+	case "twice":
+		if err := parse(w.Parser, in, &b); err != nil {
+			return kit.Bad("nondeterministic", "input %q: first parse succeeded, second (same builder) failed: %v", short(in), err)
+		}
+	}
+	take()
+	n := 0
+	for _, r := range results {
+		if k, ok := within(w.Scenario+":complete", r.text, r.es, in); !ok {
+			return k
+		}
+		n = len(r.es)
+	}
+	return kit.Result{Trivial: len(in) == 0, Outcome: fmt.Sprintf("%s+%s:ok/entities=%d", w.Parser, w.Scenario, min(n, 3))}
+}
+
+// ---- vocabulary: tags, attributes and link destinations whose branches the short token alphabets do not reach
+
+var htmlOpens = []string{
+	"<tg-time unix=\"1\">", "<tg-time unix=\"1\" format=\"r\">", "<tg-time unix=\"1\" format=\"\">", "<tg-time unix=\"1\" format=\"rt\">", "<tg-time unix=\"1\" format=\"tTdDwW\">",
+	"<tg-time unix=\"x\">", "<tg-time unix=\"99999999999999999999\">", "<tg-time unix=\"-1\" format=\"\u00e9\">", "<tg-time>", "<tg-time format=\"r\">",
+	"<a href=\"tg://user?id=1\">", "<a href=\"tg://user?id=x\">", "<a href=\"tg://user\">", "<a href=\"tg://user?id=99999999999999999999\">", "<a href=\"x.y\">", "<a href=\"http://[::1]/\">", "<a href=\"http://[::1\">",
+	"<a href=\"[::1]\">", "<a href=\"%zz\">", "<a href=\"\">", "<a href=\":\">", "<a href=\"http://a b/\">", "<a href=\"http://x_y$/\">", "<a href=\"//x.y\">", "<a href=\"?\">", "<a>",
+	"<code class=\"language-\">", "<code class>", "<code>", "<pre>", "<span class=\"tg-spoiler\">", "<span>", "<tg-emoji emoji-id=\"x\">", "<tg-emoji emoji-id=\"-9223372036854775808\">", "<tg-emoji>",
+	"<blockquote>", "<blockquote expandable=\"1\">", "<B>", "<b x=1 x=2>", "<b/>",
+}
+
+var htmlCloserOf = func(open string) string {
+	name := strings.TrimLeft(open, "<")
+	if i := strings.IndexAny(name, " >/"); i >= 0 {
+		name = name[:i]
+	}
+	return "</" + strings.ToLower(name) + ">"
+}
+
+var htmlBodies = []string{"", "a", " ", "a ", "\U0001F600", "http://x.y", "x.y", ":", "tg://user?id=1", "tg://user?id=x", "[::1]", "a b", "%zz"}
+var htmlOdd = []string{"<br/>", "<!--x-->", "<!DOCTYPE html>", "</ b>", "</>", "<!-->", "<?x>", "</tg-time>", "</a>", "</code>", "</pre>"}
+
+var mdDests = []string{
+	"(tg://time?unix=1&format=t)", "(tg://time?unix=1)", "(tg://time?unix=x)", "(tg://time)", "(tg://time?unix=1&format=rt)", "(tg://time?unix=1&format=)", "(tg://time?unix=99999999999999999999)",
+	"(tg://time?unix=1&unix=2)", "(tg://time?format=r)", "(tg://user?id=1)", "(tg://user?id=x)", "(tg://user)", "(tg://user?id=)", "(tg://emoji?id=1)", "(tg://emoji)", "(tg://emoji?id=x)", "(tg://x)",
+	"(http://x.y \"t\")", "(<http://x y>)", "()", "(x)", "(%zz)", "(:)", "(http://[::1)", "(?%)", "[r]", "[]", "", "\n\n[r]: tg://time?unix=1\n", "\n\n[a]: <>\n",
+}
+var mdLinkBodies = []string{"a", "", " ", "\U0001F600", "*a*", "a ", "`a`", "[b](x)", "a\nb"}
+var mdOdd = []string{"***", "___", "- ", "1. ", "    ", "\t", "&amp;", "&#0;", "&#x110000;", "<b>", "\r\n", "===\n", "---\n", "  \n", "\\\n", "\u00a0", "~", "~~~\n", "|||", "||||"}
+
+// vocabulary emits the inputs of the vocabulary family for a parser kind ("html" or "markdown").
+func vocabulary(kind string, emit func([]string)) {
+	if kind == "html" {
+		for _, o := range htmlOpens {
+			closers := []string{htmlCloserOf(o), "</>", "", "</b>"}
+			for _, body := range htmlBodies {
+				for _, cl := range closers {
+					for _, tail := range []string{"", " "} {
+						emit([]string{o, body, cl, tail})
+					}
+				}
+			}
+			// nested in / around a bold element with trailing white space
+			emit([]string{"<b>", o, "a ", htmlCloserOf(o), "</b>"})
+			emit([]string{o, "<b>", "a ", "</b>", " ", htmlCloserOf(o)})
+		}
+		all := append(append([]string{}, htmlOpens...), htmlOdd...)
+		all = append(all, "a", " ")
+		for _, x := range all {
+			for _, y := range all {
+				emit([]string{x, y})
+				emit([]string{x, "a ", y})
+			}
+		}
+		return
+	}
+	for _, open := range []string{"[", "!["} {
+		for _, body := range mdLinkBodies {
+			for _, d := range mdDests {
+				for _, tail := range []string{"", " ", "\n"} {
+					emit([]string{open, body, "]", d, tail})
+				}
+			}
+		}
+	}
+	all := append(append([]string{}, mdOdd...), "[a](tg://time?unix=1)", "![a](tg://emoji?id=1)", "**", "a", " ", "\n", "> ")
+	for _, x := range all {
+		for _, y := range all {
+			emit([]string{x, y})
+			for _, z := range all {
+				emit([]string{x, y, z})
+			}
+		}
+	}
 }
 
 // within is the statement for one result. stage says how the result was taken from the builder:
@@ -245,6 +437,8 @@ func main() {
 		nest := kit.NewFamily(c, "nest", judge)
 		corpus := kit.NewFamily(c, "corpus", judge)
 		stress := kit.NewIsolatedFamily(c, "stress", 8, 4096, judge)
+		vocab := kit.NewFamily(c, "vocabulary", judge)
+		embed := kit.NewFamily(c, "embedded", judgeScenario)
 		if c.Replaying() {
 			return
 		}
@@ -259,8 +453,17 @@ func main() {
 			"(tag, reference, delimiter run, rune) deleted, with every single byte deleted, and every prefix; stress (in worker subprocesses, 4 GiB): "+
 			"1000 and 10000 (thorough also 30000) repetitions of opening tags, closers, quote markers, delimiters, references. Oracle = the statement: no panic; on success every entity "+
 			"has offset,length >= 0 and offset+length <= UTF-16 length of the text, both for Builder.Complete (what senders and the packages' tests use) and "+
-			"for Builder.Raw; when the text is not valid UTF-8 the bound is its byte length.",
-			depth, len(htmlTokens), depth-1, len(markdownTokens), nestDepth, len(htmlWrap), len(markdownWrap), bodies, tails, len(htmlCorpus), len(markdownCorpus))
+			"for Builder.Raw; when the text is not valid UTF-8 the bound is its byte length. "+
+			"vocabulary: %d HTML opening tags with the attribute forms of every startTag branch (tg-time with unix/format present, absent, empty, invalid, overflowing; hrefs tg://user, "+
+			"scheme-less, IPv6, unparsable, empty; code/span/tg-emoji/blockquote attribute variants; upper case, duplicate attributes, self-closing) x %d bodies (incl. texts tried as link "+
+			"when href is missing) x {matching, anonymous, no, foreign closer} x tails, nested in/around <b>, every ordered pair of those tags and %d odd tokens (comments, doctype, "+
+			"processing instruction, stray closers) with and without text between; Markdown: {[, ![} x %d link bodies x %d destinations (tg://time, tg://user, tg://emoji with valid, "+
+			"missing, invalid, duplicate and overflowing parameters, titles, <...> destinations, reference links and definitions) x tails, and every sequence of 2..3 of %d other constructs "+
+			"(rule-of-3 delimiters, list and heading markers, tabs, character references, raw HTML, CRLF, hard breaks). embedded: every nest and vocabulary template input in the "+
+			"scenarios %q (builder with a history or followed by more text, parsed twice, builder reused after Complete and after a failed parse, UserResolver failing or returning nil, "+
+			"an io.Reader that returns single bytes with (0, nil) in between or the data together with io.EOF); same oracle on every Complete result.",
+			depth, len(htmlTokens), depth-1, len(markdownTokens), nestDepth, len(htmlWrap), len(markdownWrap), bodies, tails, len(htmlCorpus), len(markdownCorpus),
+			len(htmlOpens), len(htmlBodies), len(htmlOdd), len(mdLinkBodies), len(mdDests), len(mdOdd)+7, scenarios)
 		c.Assume("a result is the (text, entities) pair taken from the entity.Builder after html.HTML / markdown.Markdown returned nil")
 		par := func(ws []witness, fam *kit.Fam[witness]) {
 			kit.Parallel(len(ws), runtime.NumCPU(), func(i int) { fam.Eval(ws[i]) })
@@ -284,6 +487,48 @@ func main() {
 						nest.Eval(witness{Parser: p.parser, Tokens: t})
 					}
 				})
+			}
+		}
+		// vocabulary, and every nest / vocabulary template in every scenario
+		for _, p := range []struct {
+			parsers []string
+			kind    string
+			wrap    [][2]string
+		}{{[]string{"html", "html-noescape"}, "html", htmlWrap}, {[]string{"markdown"}, "markdown", markdownWrap}} {
+			for _, parser := range p.parsers {
+				var ws, es []witness
+				vocabulary(p.kind, func(t []string) {
+					w := witness{Parser: parser, Tokens: append([]string{}, t...)}
+					ws = append(ws, w)
+					if len(t) >= 4 { // templates only (pairs and triples stay in the fresh-builder family)
+						es = append(es, w)
+					}
+				})
+				for k := 1; k <= 2; k++ {
+					forests(k, p.wrap, bodies, func(toks []string) {
+						es = append(es, witness{Parser: parser, Tokens: append([]string{}, toks...)})
+					})
+				}
+				head := min(len(ws), 512)
+				for i := 0; i < head; i++ {
+					vocab.Eval(ws[i])
+				}
+				par(ws[head:], vocab)
+				if parser == "html-noescape" {
+					continue
+				}
+				var sc []witness
+				for _, w := range es {
+					for _, scn := range scenarios {
+						w.Scenario = scn
+						sc = append(sc, w)
+					}
+				}
+				head = min(len(sc), 512)
+				for i := 0; i < head; i++ {
+					embed.Eval(sc[i])
+				}
+				par(sc[head:], embed)
 			}
 		}
 		// corpus
